@@ -42,5 +42,5 @@ LargeSpec == LargeInit /\ [][LargeNext]_vars
 \* neighbouring beads carry different numbers in every column, so a shifted column is visible
 NeighboursDiffer ==
   LET g == file[1] IN \A i \in {1, 2, 99998, 99999, 100000, 100001, LargeN - 1} : \A c \in 1..3 :
-        g.pos[i][c] # g.pos[i + 1][c] /\ g.vel[i][c] # g.vel[i + 1][c]
+        g.pos[i][c] # g.pos[i + 1][c] /\ (Cap[fmt].vel => g.vel[i][c] # g.vel[i + 1][c])
 =============================================================================
